@@ -200,6 +200,134 @@ def _derive():
         return f'({ast.unparse(raised[0].value)} if {ast.unparse(node.test)} else n_channel)'
     emit('gen_width', ['n_cond', 'n_channel'], gen_width)
 
+    # ---- round 3: more entry formulas -------------------------------------------------------
+    def matmul_term(func, target, nth, left, right, lname, rname):
+        """the summand of `target = left @ right` (the nth assignment to target whose value is a
+        matrix product): `left[i, l] * right[l, j]`.  Operand order and bare names are part of the
+        anchor: a transposed or swapped operand is underivable (-> broken obligation)."""
+        def run():
+            fn = _func('simulation/sim.py', func)
+            hits = [h for h in _assigns(fn, target) if isinstance(h.value, ast.BinOp)
+                    and isinstance(h.value.op, ast.MatMult)]
+            if len(hits) <= nth:
+                raise Underivable(f'matrix product #{nth} assigned to {target} not found')
+            v = hits[nth].value
+            if not (isinstance(v.left, ast.Name) and isinstance(v.right, ast.Name)):
+                raise Underivable(f'operands of `{ast.unparse(v)}` are not bare names')
+            if (v.left.id, v.right.id) != (left, right):
+                raise Underivable(f'`{ast.unparse(v)}` is not `{left} @ {right}`')
+            return f'{lname} * {rname}'
+        return run
+    # make_signal: true_U = true_U @ chol_channel ; true_U = (chol_G @ true_U)
+    emit('signal_chan_term', ['u_il', 'chol_lj'],
+         matmul_term('make_signal', 'true_U', 0, 'true_U', 'chol_channel', 'u_il', 'chol_lj'))
+    emit('signal_mix_term', ['cholg_il', 'u_lj'],
+         matmul_term('make_signal', 'true_U', 1, 'chol_G', 'true_U', 'cholg_il', 'u_lj'))
+    # make_dataset: epsilon = epsilon @ noise_chol_channel ; epsilon = noise_chol_trial @ epsilon
+    emit('noise_chan_term', ['eps_ol', 'chol_lc'],
+         matmul_term('make_dataset', 'epsilon', 0, 'epsilon', 'noise_chol_channel', 'eps_ol', 'chol_lc'))
+    emit('noise_trial_term', ['chol_ol', 'eps_lc'],
+         matmul_term('make_dataset', 'epsilon', 1, 'noise_chol_trial', 'epsilon', 'chol_ol', 'eps_lc'))
+
+    def zu_term():
+        # the signal part of `data = Zcond @ true_U * ... + ...`
+        hits = _assigns(_func('simulation/sim.py', 'make_dataset'), 'data')
+        if len(hits) != 1:
+            raise Underivable('expected one assignment to data')
+        prods = [n for n in ast.walk(hits[0].value) if isinstance(n, ast.BinOp) and isinstance(n.op, ast.MatMult)]
+        if len(prods) != 1 or ast.unparse(prods[0]) != 'Zcond @ true_U':
+            raise Underivable(f'signal part of data is not `Zcond @ true_U`: `{ast.unparse(hits[0].value)}`')
+        # Zcond itself: the indicator matrix of a 1-D cond_vec, a 2-D cond_vec unchanged
+        fn = _func('simulation/sim.py', 'make_dataset')
+        zs = [ast.unparse(h.value) for h in _assigns(fn, 'Zcond')]
+        if zs != ['rsatoolbox.util.matrix.indicator(cond_vec)', 'cond_vec']:
+            raise Underivable(f'Zcond is assigned {zs}')
+        tests = [ast.unparse(n.test) for n in ast.walk(fn) if isinstance(n, ast.If)
+                 and any(isinstance(b, ast.Assign) and ast.unparse(b.targets[0]) == 'Zcond' for b in n.body)]
+        if tests != ['cond_vec.ndim == 1', 'cond_vec.ndim == 2']:
+            raise Underivable(f'Zcond dispatch tests {tests}')
+        return 'z_oa * u_ac'
+    emit('design_term', ['z_oa', 'u_ac'], zu_term)
+
+    def row_center():
+        fn = _func('simulation/sim.py', 'make_signal')
+        hits = [h for h in _assigns(fn, 'true_U') if 'np.mean' in ast.unparse(h.value)]
+        if len(hits) != 1:
+            raise Underivable('the row-centring assignment of make_signal was not found')
+        return _substituted(hits[0].value, {'np.mean(true_U, axis=1, keepdims=True)': 'row_mean', 'true_U': 'u'})
+    emit('row_center_entry', ['u', 'row_mean'], row_center)
+
+    def desc(key):
+        def run():
+            fn = _func('simulation/sim.py', 'make_dataset')
+            hits = _assigns(fn, 'des')
+            if len(hits) != 1 or not isinstance(hits[0].value, ast.Dict):
+                raise Underivable('expected one dict assignment to des')
+            d = hits[0].value
+            keys = [k.value if isinstance(k, ast.Constant) else None for k in d.keys]
+            if sorted(map(str, keys)) != ['model', 'noise', 'signal', 'theta']:
+                raise Underivable(f'descriptor keys {keys}')
+            other = {'model': 'model.name', 'theta': 'theta'}
+            for k, v in zip(keys, d.values):
+                if k in other and ast.unparse(v) != other[k]:
+                    raise Underivable(f'descriptor {k} is `{ast.unparse(v)}`, not `{other[k]}`')
+            # the datasets must be built with these dicts
+            calls = [n for n in ast.walk(fn) if isinstance(n, ast.Call) and ast.unparse(n.func).endswith('Dataset')]
+            if len(calls) != 1:
+                raise Underivable('expected one Dataset(...) call')
+            kws = {k.arg: ast.unparse(k.value) for k in calls[0].keywords}
+            if kws != {'obs_descriptors': 'obs_des', 'descriptors': 'des'} or len(calls[0].args) != 1 \
+                    or ast.unparse(calls[0].args[0]) != 'data':
+                raise Underivable(f'Dataset call `{ast.unparse(calls[0])}`')
+            od = _assigns(fn, 'obs_des')
+            if len(od) != 1 or ast.unparse(od[0].value) != "{'cond_vec': cond_vec}":
+                raise Underivable('obs_des is not {"cond_vec": cond_vec}')
+            return ast.unparse(d.values[keys.index(key)])
+        return run
+    emit('desc_signal', ['signal', 'noise'], desc('signal'))
+    emit('desc_noise', ['signal', 'noise'], desc('noise'))
+
+    def indicator_entry():
+        fn = _func('util/matrix.py', 'indicator')
+        loops = [n for n in fn.body if isinstance(n, ast.For)]
+        if len(loops) != 1 or len(loops[0].body) != 1 or ast.unparse(loops[0].target) != 'i' \
+                or ast.unparse(loops[0].iter) != 'np.arange(n_unique)':
+            raise Underivable('the column loop of indicator was not found')
+        st = loops[0].body[0]
+        if not (isinstance(st, ast.Assign) and isinstance(st.targets[0], ast.Subscript)
+                and ast.unparse(st.targets[0].value) == 'indicator_matrix'):
+            raise Underivable(f'loop body `{ast.unparse(st)}`')
+        idx = st.targets[0].slice
+        if not (isinstance(idx, ast.Tuple) and len(idx.elts) == 2 and ast.unparse(idx.elts[1]) == 'i'
+                and isinstance(idx.elts[0], ast.Compare)):
+            raise Underivable(f'index `{ast.unparse(idx)}`')
+        init = _assigns(fn, 'indicator_matrix')
+        if len(init) != 1 or ast.unparse(init[0].value) != 'np.zeros((rows, n_unique))':
+            raise Underivable('indicator_matrix is not initialised with zeros((rows, n_unique))')
+        mask = _substituted(idx.elts[0], {'index_vector': 'label', 'c_unique[i]': 'uniq_i'})
+        return f'({ast.unparse(st.value)} if {mask} else 0)'
+    emit('indicator_entry', ['label', 'uniq_i'], indicator_entry)
+
+    def draw_shape(func, which):
+        def run():
+            fn = _func('simulation/sim.py', func)
+            calls = [n for n in ast.walk(fn) if isinstance(n, ast.Call)
+                     and ast.unparse(n.func) == 'np.random.uniform']
+            if len(calls) != 1:
+                raise Underivable(f'expected one np.random.uniform call in {func}')
+            c = calls[0]
+            if [ast.unparse(a) for a in c.args] != ['0', '1'] or len(c.keywords) != 1 or c.keywords[0].arg != 'size':
+                raise Underivable(f'draw `{ast.unparse(c)}` is not uniform(0, 1, size=...)')
+            sz = c.keywords[0].value
+            if not (isinstance(sz, ast.Tuple) and len(sz.elts) == 2):
+                raise Underivable('size is not a pair')
+            return ast.unparse(sz.elts[which])
+        return run
+    emit('noise_draw_rows', ['n_obs', 'n_channel'], draw_shape('make_dataset', 0))
+    emit('noise_draw_cols', ['n_obs', 'n_channel'], draw_shape('make_dataset', 1))
+    emit('signal_draw_rows', ['n_cond', 'n_channel'], draw_shape('make_signal', 0))
+    emit('signal_draw_cols', ['n_cond', 'n_channel'], draw_shape('make_signal', 1))
+
     text = '\n'.join(out)
     if not (os.path.exists(DERIVED) and open(DERIVED).read() == text):
         with open(DERIVED + '.tmp', 'w') as f:
@@ -221,6 +349,36 @@ LEAVES = [
     dict(name='eigClamp', file=DERIVED, func='eig_clamp', kind='func', params={'eigval': 'A'}, ret='A'),
     dict(name='genWidth', file=DERIVED, func='gen_width', kind='func',
          params={'n_cond': 'Nat', 'n_channel': 'Nat'}, ret='Nat'),
+    dict(name='signalChanTerm', file=DERIVED, func='signal_chan_term', kind='func',
+         params={'u_il': 'A', 'chol_lj': 'A'}, ret='A'),
+    dict(name='signalMixTerm', file=DERIVED, func='signal_mix_term', kind='func',
+         params={'cholg_il': 'A', 'u_lj': 'A'}, ret='A'),
+    dict(name='noiseChanTerm', file=DERIVED, func='noise_chan_term', kind='func',
+         params={'eps_ol': 'A', 'chol_lc': 'A'}, ret='A'),
+    dict(name='noiseTrialTerm', file=DERIVED, func='noise_trial_term', kind='func',
+         params={'chol_ol': 'A', 'eps_lc': 'A'}, ret='A'),
+    dict(name='designTerm', file=DERIVED, func='design_term', kind='func',
+         params={'z_oa': 'A', 'u_ac': 'A'}, ret='A'),
+    dict(name='rowCenterEntry', file=DERIVED, func='row_center_entry', kind='func',
+         params={'u': 'A', 'row_mean': 'A'}, ret='A'),
+    dict(name='descSignal', file=DERIVED, func='desc_signal', kind='func',
+         params={'signal': 'A', 'noise': 'A'}, ret='A'),
+    dict(name='descNoise', file=DERIVED, func='desc_noise', kind='func',
+         params={'signal': 'A', 'noise': 'A'}, ret='A'),
+    dict(name='indicatorEntry', file=DERIVED, func='indicator_entry', kind='func',
+         params={'label': 'Nat', 'uniq_i': 'Nat'}, ret='A'),
+    dict(name='noiseDrawRows', file=DERIVED, func='noise_draw_rows', kind='func',
+         params={'n_obs': 'Nat', 'n_channel': 'Nat'}, ret='Nat'),
+    dict(name='noiseDrawCols', file=DERIVED, func='noise_draw_cols', kind='func',
+         params={'n_obs': 'Nat', 'n_channel': 'Nat'}, ret='Nat'),
+    dict(name='signalDrawRows', file=DERIVED, func='signal_draw_rows', kind='func',
+         params={'n_cond': 'Nat', 'n_channel': 'Nat'}, ret='Nat'),
+    dict(name='signalDrawCols', file=DERIVED, func='signal_draw_cols', kind='func',
+         params={'n_cond': 'Nat', 'n_channel': 'Nat'}, ret='Nat'),
+    # native: chol_G = eigvec * np.sqrt(eigval)
+    dict(name='cholEntry', file='simulation/sim.py', func='make_signal', kind='assign',
+         target='chol_G', nth=0, count=1, params={'eigvec': 'A', 'sqrt_w': 'A'}, ret='A',
+         opaque={'np.sqrt(eigval)': 'sqrt_w'}),
     # native: epsilon = ss.norm.ppf(epsilon) * np.sqrt(noise)   (2nd of the 4 assignments to epsilon)
     dict(name='noiseScale', file='simulation/sim.py', func='make_dataset', kind='assign',
          target='epsilon', nth=1, count=4, params={'z': 'A', 'sqrt_noise': 'A'}, ret='A',
